@@ -27,7 +27,8 @@ CR = 1e4
 def BOUNDS(tier):
     return {'max_order': 4 if tier == 'quick' else 6, 'seeds': 3 if tier == 'quick' else 8, 'eps': EPS,
             'initial_guess': ['none', 'rank1', 'rank5', 'zero'], 'routines': ['fast_matvec', 'dmrg_hadamard', 'amen_mv', 'amen_mm'],
-            'operator_ranks': [1, 2, 4], 'vector_ranks': [1, 3]}
+            'operator_ranks': [1, 2, 4], 'vector_ranks': [1, 3],
+            'nswp': 'default, and 1..3 for fast_matvec / dmrg_hadamard where one sweep suffices: order 2 with guess none/rank1/zero/exact/exact_round, orders 3..4 with the exact product as guess'}
 
 
 def _structs(tier):
